@@ -4,3 +4,591 @@
 
 @include inc/cw3_types.vsi
 @include inc/cw3_fns_relaxed.vsi
+@include inc/cw4_helpers.vsi
+@include inc/cw3_deposit.vsi
+
+// ===================================================================== cw3-flex-multisig: data and state
+@struct packages/cw3/src/query.rs ProposalResponse
+@struct packages/cw3/src/query.rs VoteInfo
+@struct packages/cw3/src/query.rs VoteResponse
+@struct packages/cw3/src/query.rs VoterResponse
+@enum contracts/cw3-flex-multisig/src/state.rs Executor
+@struct contracts/cw3-flex-multisig/src/state.rs Config
+@struct contracts/cw3-flex-multisig/src/msg.rs InstantiateMsg
+@enum contracts/cw3-flex-multisig/src/msg.rs ExecuteMsg
+@enum contracts/cw3-flex-multisig/src/error.rs ContractError
+impl SerT for Config { uninterp spec fn ser(self) -> Seq<u8>; uninterp spec fn de(b: Seq<u8>) -> Option<Self>; }
+impl SerT for Proposal { uninterp spec fn ser(self) -> Seq<u8>; uninterp spec fn de(b: Seq<u8>) -> Option<Self>; }
+impl SerT for Ballot { uninterp spec fn ser(self) -> Seq<u8>; uninterp spec fn de(b: Seq<u8>) -> Option<Self>; }
+
+@const contracts/cw3-flex-multisig/src/contract.rs CONTRACT_NAME
+@const contracts/cw3-flex-multisig/src/contract.rs CONTRACT_VERSION
+@const contracts/cw3-flex-multisig/src/state.rs CONFIG
+@const contracts/cw3-fixed-multisig/src/state.rs PROPOSAL_COUNT
+@const contracts/cw3-fixed-multisig/src/state.rs BALLOTS
+@const contracts/cw3-fixed-multisig/src/state.rs PROPOSALS
+
+pub open spec fn pkey(id: u64) -> Seq<u8> { path("proposals"@, u64_kb(id)) }
+pub open spec fn bkey_raw(id: u64, ab: Seq<u8>) -> Seq<u8> { path("votes"@, pair_kb(u64_kb(id), ab)) }
+pub open spec fn bkey(id: u64, a: Seq<char>) -> Seq<u8> { bkey_raw(id, utf8(a)) }
+pub open spec fn cfg_key() -> Seq<u8> { item_key("config"@) }
+pub open spec fn count_key() -> Seq<u8> { item_key("proposal_count"@) }
+pub open spec fn prop_of(s: Raw, id: u64) -> Option<Proposal> { raw_get::<Proposal>(s, pkey(id)) }
+pub open spec fn ballot(s: Raw, id: u64, a: Seq<char>) -> Option<Ballot> { raw_get::<Ballot>(s, bkey(id, a)) }
+pub open spec fn cfg_of(s: Raw) -> Option<Config> { raw_get::<Config>(s, cfg_key()) }
+pub open spec fn count(s: Raw) -> u64 { match raw_get::<u64>(s, count_key()) { Some(c) => c, None => 0 } }
+pub open spec fn group_of(s: Raw) -> Seq<char> { cfg_of(s)->Some_0.group_addr.0@ }
+
+/// `k` is the storage key of an entry of namespace `ns`
+pub open spec fn in_ns(k: Seq<u8>, ns: Seq<char>) -> bool { unpath(k).0 == ns && k == path(ns, unpath(k).1) }
+/// weight of the recorded ballots of kind `kind` (any kind if None) on proposal `id`
+pub open spec fn w_ballots(id: u64, kind: Option<Vote>) -> spec_fn(Seq<u8>, Seq<u8>) -> nat {
+    |k: Seq<u8>, v: Seq<u8>| if in_ns(k, "votes"@) && unpath(k).1 == pair_kb(u64_kb(id), unpair_kb(unpath(k).1).1) {
+        match Ballot::de(v) { Some(b) => if kind is None || kind == Some(b.vote) { b.weight as nat } else { 0nat }, None => 0nat }
+    } else { 0nat }
+}
+pub open spec fn cast(s: Raw, id: u64, kind: Option<Vote>) -> nat { sum_w(s, w_ballots(id, kind)) }
+/// C03: the stored tally is, kind by kind, the sum of the recorded ballots of that proposal
+pub open spec fn tally_matches(s: Raw, id: u64, v: Votes) -> bool {
+    v.yes == cast(s, id, Some(Vote::Yes)) && v.no == cast(s, id, Some(Vote::No))
+    && v.abstain == cast(s, id, Some(Vote::Abstain)) && v.veto == cast(s, id, Some(Vote::Veto))
+}
+pub open spec fn prop_inv(s: Raw, id: u64, p: Proposal) -> bool {
+    p.threshold == cfg_of(s)->Some_0.threshold && p.deposit == cfg_of(s)->Some_0.proposal_deposit
+    && tally_matches(s, id, p.votes) && 1 <= id <= count(s)
+}
+pub open spec fn inv(s: Raw) -> bool {
+    cfg_of(s) is Some && pct_valid(cfg_of(s)->Some_0.threshold)
+    && (forall|id: u64| #![trigger pkey(id)] prop_of(s, id) is Some ==> prop_inv(s, id, prop_of(s, id)->Some_0))
+    && (forall|id: u64, ab: Seq<u8>| #![trigger bkey_raw(id, ab)] s.contains_key(bkey_raw(id, ab)) ==> 1 <= id <= count(s))
+}
+
+pub broadcast group cw3_axioms { ax_path, ax_utf8, ax_u64_ser, ax_u64_kb, ax_ser, ax_pair_kb, lemma_sum_insert, lemma_sum_remove_b, addr_ext }
+pub proof fn lemma_ns3()
+    ensures "proposals"@ != "votes"@, "proposals"@ != "config"@, "proposals"@ != "proposal_count"@, "proposals"@ != "contract_info"@,
+        "votes"@ != "config"@, "votes"@ != "proposal_count"@, "votes"@ != "contract_info"@,
+        "config"@ != "proposal_count"@, "config"@ != "contract_info"@, "proposal_count"@ != "contract_info"@,
+{
+    reveal_strlit("proposals"); reveal_strlit("votes"); reveal_strlit("config"); reveal_strlit("proposal_count"); reveal_strlit("contract_info");
+    assert("proposals"@.len() == 9); assert("votes"@.len() == 5); assert("config"@.len() == 6);
+    assert("proposal_count"@.len() == 14); assert("contract_info"@.len() == 13);
+}
+/// a write outside "votes" changes no ballot sum
+pub proof fn lemma_side_write3(s: Raw, k: Seq<u8>, v: Seq<u8>, id: u64, kind: Option<Vote>)
+    requires unpath(k).0 != "votes"@
+    ensures cast(s.insert(k, v), id, kind) == cast(s, id, kind)
+{
+    broadcast use cw3_axioms;
+}
+/// the first ballot of `a` on `id` adds its weight to the matching sums of `id` and to nothing else
+pub proof fn lemma_cast(s: Raw, id: u64, a: Seq<char>, b: Ballot, id2: u64, kind: Option<Vote>)
+    requires !s.contains_key(bkey(id, a))
+    ensures cast(s.insert(bkey(id, a), b.ser()), id2, kind) == cast(s, id2, kind)
+        + (if id2 == id && (kind is None || kind == Some(b.vote)) { b.weight as nat } else { 0nat }),
+{
+    broadcast use cw3_axioms;
+    if id2 != id { assert(u64_unkb(u64_kb(id2)) != u64_unkb(u64_kb(id))); }
+}
+
+@fn contracts/cw3-fixed-multisig/src/state.rs next_id
+@requires
+    count(old(store).view()) < u64::MAX
+@ensures C05.next_id_increasing
+    r is Ok ==> r->Ok_0 == count(old(store).view()) + 1
+        && final(store).view() == old(store).view().insert(count_key(), u64_ser(r->Ok_0))
+@prefix
+    broadcast use cw3_axioms;
+@end
+
+/// who may execute a passed proposal (C05): anyone, any current group member, or one fixed address
+pub open spec fn authorized(c: Config, w: int, sender: Seq<char>) -> bool {
+    match c.executor {
+        None => true,
+        Some(Executor::Member) => grp_member_now(w, c.group_addr.0@, sender) is Some,
+        Some(Executor::Only(a)) => a@ == sender,
+    }
+}
+@method contracts/cw3-flex-multisig/src/state.rs Config authorize
+@ensures C05.authorize_exact
+    r is Ok ==> authorized(*self, querier.world(), sender@)
+@end
+
+// --------------------------------------------------------------------- vote
+pub open spec fn add_vote_spec(v: Votes, vote: Vote, w: u64) -> Votes {
+    match vote {
+        Vote::Yes => Votes { yes: (v.yes + w) as u64, ..v },
+        Vote::No => Votes { no: (v.no + w) as u64, ..v },
+        Vote::Abstain => Votes { abstain: (v.abstain + w) as u64, ..v },
+        Vote::Veto => Votes { veto: (v.veto + w) as u64, ..v },
+    }
+}
+pub open spec fn voted_prop(p: Proposal, vote: Vote, w: u64, b: &BlockInfo) -> Proposal {
+    let p1 = Proposal { votes: add_vote_spec(p.votes, vote, w), ..p };
+    Proposal { status: spec_status(p1, b), ..p1 }
+}
+/// C06 (group-backed): the voter's weight is its weight in the group at the proposal's start height, and must be >= 1
+pub open spec fn snapshot_weight(s: Raw, w: int, id: u64, a: Seq<char>, wt: u64) -> bool {
+    exists|st: String| #![auto] st@ == a && grp_member_at(w, group_of(s), st, Some(prop_of(s, id)->Some_0.start_height)) == Some(Some(wt))
+}
+pub open spec fn vote_allowed(s: Raw, id: u64, a: Seq<char>, b: &BlockInfo) -> bool {
+    cfg_of(s) is Some && prop_of(s, id) is Some
+    && (prop_of(s, id)->Some_0.status == Status::Open || prop_of(s, id)->Some_0.status == Status::Passed || prop_of(s, id)->Some_0.status == Status::Rejected)
+    && !prop_of(s, id)->Some_0.expires.expired(b)
+    && !s.contains_key(bkey(id, a))
+}
+pub open spec fn vote_result(s: Raw, id: u64, a: Seq<char>, vote: Vote, wt: u64, b: &BlockInfo) -> Raw {
+    s.insert(bkey(id, a), (Ballot { weight: wt, vote }).ser())
+     .insert(pkey(id), voted_prop(prop_of(s, id)->Some_0, vote, wt, b).ser())
+}
+pub open spec fn tally_no_overflow(v: Votes, vote: Vote, w: u64) -> bool {
+    match vote { Vote::Yes => v.yes + w <= u64::MAX, Vote::No => v.no + w <= u64::MAX, Vote::Abstain => v.abstain + w <= u64::MAX, Vote::Veto => v.veto + w <= u64::MAX }
+}
+pub open spec fn step_vote(s: Raw, t: Raw, w: int, a: Seq<char>, b: &BlockInfo, id: u64, vote: Vote) -> bool {
+    vote_allowed(s, id, a, b) && exists|wt: u64| #![auto] wt >= 1 && snapshot_weight(s, w, id, a, wt)
+        && tally_no_overflow(prop_of(s, id)->Some_0.votes, vote, wt) && t == vote_result(s, id, a, vote, wt, b)
+}
+
+pub proof fn lemma_vote_preserves(s: Raw, id: u64, a: Seq<char>, vote: Vote, wt: u64, b: &BlockInfo)
+    requires inv(s), vote_allowed(s, id, a, b), tally_no_overflow(prop_of(s, id)->Some_0.votes, vote, wt)
+    ensures inv(vote_result(s, id, a, vote, wt, b)),
+        prop_of(vote_result(s, id, a, vote, wt, b), id) == Some(voted_prop(prop_of(s, id)->Some_0, vote, wt, b)),
+{
+    broadcast use cw3_axioms;
+    lemma_ns3();
+    let p = prop_of(s, id)->Some_0;
+    let bl = Ballot { weight: wt, vote };
+    let t1 = s.insert(bkey(id, a), bl.ser());
+    let p2 = voted_prop(p, vote, wt, b);
+    let t = t1.insert(pkey(id), p2.ser());
+    assert(prop_inv(s, id, p));
+    assert(unpath(cfg_key()) != unpath(bkey(id, a)) && unpath(cfg_key()) != unpath(pkey(id)));
+    assert(unpath(count_key()) != unpath(bkey(id, a)) && unpath(count_key()) != unpath(pkey(id)));
+    assert(cfg_of(t) == cfg_of(s) && count(t) == count(s));
+    assert(prop_of(t, id) == Some(p2));
+    assert forall|id2: u64, kind: Option<Vote>| true implies #[trigger] cast(t, id2, kind) == cast(s, id2, kind)
+        + (if id2 == id && (kind is None || kind == Some(vote)) { wt as nat } else { 0nat }) by {
+        lemma_cast(s, id, a, bl, id2, kind);
+        lemma_side_write3(t1, pkey(id), p2.ser(), id2, kind);
+    }
+    assert(cast(t, id, Some(Vote::Yes)) == cast(s, id, Some(Vote::Yes)) + (if vote == Vote::Yes { wt as nat } else { 0nat }));
+    assert(cast(t, id, Some(Vote::No)) == cast(s, id, Some(Vote::No)) + (if vote == Vote::No { wt as nat } else { 0nat }));
+    assert(cast(t, id, Some(Vote::Abstain)) == cast(s, id, Some(Vote::Abstain)) + (if vote == Vote::Abstain { wt as nat } else { 0nat }));
+    assert(cast(t, id, Some(Vote::Veto)) == cast(s, id, Some(Vote::Veto)) + (if vote == Vote::Veto { wt as nat } else { 0nat }));
+    assert(prop_inv(t, id, p2));
+    assert forall|id2: u64| prop_of(t, id2) is Some implies prop_inv(t, id2, prop_of(t, id2)->Some_0) by {
+        if id2 != id {
+            assert(u64_unkb(u64_kb(id2)) != u64_unkb(u64_kb(id)));
+            assert(unpath(pkey(id2)) != unpath(pkey(id)) && unpath(pkey(id2)) != unpath(bkey(id, a)));
+            assert(prop_of(t, id2) == prop_of(s, id2));
+            assert(prop_inv(s, id2, prop_of(s, id2)->Some_0));
+            assert(cast(t, id2, Some(Vote::Yes)) == cast(s, id2, Some(Vote::Yes)) && cast(t, id2, Some(Vote::No)) == cast(s, id2, Some(Vote::No))
+                && cast(t, id2, Some(Vote::Abstain)) == cast(s, id2, Some(Vote::Abstain)) && cast(t, id2, Some(Vote::Veto)) == cast(s, id2, Some(Vote::Veto)));
+        }
+    }
+    assert forall|id2: u64, ab: Seq<u8>| t.contains_key(bkey_raw(id2, ab)) implies 1 <= id2 <= count(t) by {
+        assert(unpath(bkey_raw(id2, ab)) != unpath(pkey(id)));
+        if bkey_raw(id2, ab) == bkey(id, a) {
+            assert(unpair_kb(pair_kb(u64_kb(id2), ab)) == unpair_kb(pair_kb(u64_kb(id), utf8(a))));
+            assert(u64_unkb(u64_kb(id2)) == u64_unkb(u64_kb(id)));
+        } else {
+            assert(s.contains_key(bkey_raw(id2, ab)));
+        }
+    }
+}
+
+@fn contracts/cw3-flex-multisig/src/contract.rs execute_vote [closures: 1]
+@requires
+    inv(old(deps.storage).view())
+@ensures C06.vote_exact C03 C05
+    r is Ok ==> step_vote(old(deps.storage).view(), final(deps.storage).view(), deps.querier.world(), info.sender@, &env.block, proposal_id, vote)
+@ensures C03.vote_inv C05 C06
+    r is Ok ==> inv(final(deps.storage).view())
+@ensures C05.vote_nomsg C15
+    r is Ok ==> r->Ok_0.messages@.len() == 0
+@ensures C15.voted_down_deposit_recoverable
+    r is Ok && refundable(prop_of(old(deps.storage).view(), proposal_id)->Some_0.deposit)
+        ==> prop_of(final(deps.storage).view(), proposal_id)->Some_0.status != Status::Rejected
+            || prop_of(old(deps.storage).view(), proposal_id)->Some_0.status == Status::Rejected
+@closure 1 C06.vote_once
+    (res: Result<Ballot, ContractError>)
+    ensures res is Ok ==> bal is None && res->Ok_0 == (Ballot { weight: vote_power, vote })
+@prefix
+    broadcast use cw3_axioms, opt_conv;
+@insert_before "BALLOTS.update(" 1
+    proof {
+        assert(vote_power >= 1);
+        assert(snapshot_weight(old(deps.storage).view(), deps.querier.world(), proposal_id, info.sender@, vote_power));
+    }
+@insert_before "prop.votes.add_vote(vote, vote_power);" 1
+    proof {
+        assert(inv(old(deps.storage).view()));
+        assert(prop_inv(old(deps.storage).view(), proposal_id, prop_of(old(deps.storage).view(), proposal_id)->Some_0));
+    }
+@insert_before "PROPOSALS.save(" 1
+    proof {
+        if vote_allowed(old(deps.storage).view(), proposal_id, info.sender@, &env.block)
+            && tally_no_overflow(prop_of(old(deps.storage).view(), proposal_id)->Some_0.votes, vote, vote_power) {
+            lemma_vote_preserves(old(deps.storage).view(), proposal_id, info.sender@, vote, vote_power, &env.block);
+        }
+    }
+@end
+
+// --------------------------------------------------------------------- propose
+impl JsonT for TotalWeightResponse { uninterp spec fn json(self) -> Seq<u8>; uninterp spec fn unjson(b: Seq<u8>) -> Option<Self>; }
+/// the group's total weight at the start of block `h` (the cw4 `TotalWeight { at_height }` smart query)
+pub open spec fn grp_total_at(w: int, g: Seq<char>, h: Option<u64>) -> Option<u64> {
+    match smart_answer(w, g, (Cw4QueryMsg::TotalWeight { at_height: h }).json()) {
+        Some(b) => match TotalWeightResponse::unjson(b) { Some(t) => Some(t.weight), None => None },
+        None => None,
+    }
+}
+pub open spec fn clamp_expiry(latest: Option<Expiration>, max: Expiration) -> Option<Expiration> {
+    let e = match latest { Some(x) => x, None => max };
+    if !e.comparable(max) { None } else if e.le_spec(max) { Some(e) } else { Some(max) }
+}
+pub open spec fn new_prop(s: Raw, w: int, sender: Addr, b: &BlockInfo, title: String, description: String, msgs: Vec<CosmosMsg<Empty>>, expires: Expiration) -> Proposal {
+    let p0 = Proposal {
+        title, description, start_height: b.height, expires, msgs, status: Status::Open,
+        threshold: cfg_of(s)->Some_0.threshold, total_weight: grp_total_now(w, group_of(s))->Some_0,
+        votes: Votes { yes: grp_member_now(w, group_of(s), sender@)->Some_0, no: 0, abstain: 0, veto: 0 },
+        proposer: sender, deposit: cfg_of(s)->Some_0.proposal_deposit,
+    };
+    Proposal { status: spec_status(p0, b), ..p0 }
+}
+pub open spec fn propose_result(s: Raw, sender: Addr, p: Proposal) -> Raw {
+    let id = (count(s) + 1) as u64;
+    s.insert(count_key(), u64_ser(id)).insert(pkey(id), p.ser())
+     .insert(bkey(id, sender@), (Ballot { weight: p.votes.yes, vote: Vote::Yes }).ser())
+}
+pub open spec fn step_propose(s: Raw, t: Raw, w: int, sender: Addr, funds: Seq<Coin>, b: &BlockInfo, title: String, description: String, msgs: Vec<CosmosMsg<Empty>>, latest: Option<Expiration>) -> bool {
+    cfg_of(s) is Some
+    && (cfg_of(s)->Some_0.proposal_deposit is Some ==> native_paid(cfg_of(s)->Some_0.proposal_deposit->Some_0, funds))
+    && grp_member_now(w, group_of(s), sender@) is Some && grp_total_now(w, group_of(s)) is Some
+    && clamp_expiry(latest, cfg_of(s)->Some_0.max_voting_period.after_spec(b)) is Some
+    && t == propose_result(s, sender, new_prop(s, w, sender, b, title, description, msgs,
+            clamp_expiry(latest, cfg_of(s)->Some_0.max_voting_period.after_spec(b))->Some_0))
+}
+/// C15: the deposit is pulled exactly once (cw20) or was attached (native): the only messages of Propose
+pub open spec fn take_msgs_ok(msgs: Seq<SubMsg<Empty>>, d: Option<DepositInfo>, proposer: Seq<char>, contract: Seq<char>) -> bool {
+    match d {
+        Some(dep) => if dep.denom is Cw20 && dep.amount.0 != 0 {
+                msgs.len() == 1 && msgs[0] == SubMsg::<Empty>::new_spec(msgs[0].msg) && is_take_msg(msgs[0].msg, dep, proposer, contract)
+            } else { msgs.len() == 0 },
+        None => msgs.len() == 0,
+    }
+}
+
+pub proof fn lemma_no_ballots_zero(s: Raw, id: u64, kind: Option<Vote>)
+    requires forall|ab: Seq<u8>| !s.contains_key(#[trigger] bkey_raw(id, ab))
+    ensures cast(s, id, kind) == 0
+{
+    broadcast use cw3_axioms;
+    assert forall|k: Seq<u8>| s.contains_key(k) implies #[trigger] w_ballots(id, kind)(k, s[k]) == 0 by {
+        if in_ns(k, "votes"@) && unpath(k).1 == pair_kb(u64_kb(id), unpair_kb(unpath(k).1).1) {
+            assert(k == bkey_raw(id, unpair_kb(unpath(k).1).1));
+        }
+    }
+    lemma_sum_zero(s, w_ballots(id, kind));
+}
+
+pub proof fn lemma_propose_preserves(s: Raw, sender: Addr, p: Proposal)
+    requires inv(s), count(s) < u64::MAX,
+        p.votes.no == 0 && p.votes.abstain == 0 && p.votes.veto == 0,
+        p.threshold == cfg_of(s)->Some_0.threshold, p.deposit == cfg_of(s)->Some_0.proposal_deposit,
+    ensures inv(propose_result(s, sender, p)),
+        prop_of(propose_result(s, sender, p), (count(s) + 1) as u64) == Some(p),
+        count(propose_result(s, sender, p)) == count(s) + 1,
+        forall|id2: u64| id2 != count(s) + 1 ==> prop_of(propose_result(s, sender, p), id2) == prop_of(s, id2),
+{
+    broadcast use cw3_axioms;
+    lemma_ns3();
+    let id = (count(s) + 1) as u64;
+    let a = sender@;
+    let bl = Ballot { weight: p.votes.yes, vote: Vote::Yes };
+    let t0 = s.insert(count_key(), u64_ser(id));
+    let t1 = t0.insert(pkey(id), p.ser());
+    let t = t1.insert(bkey(id, a), bl.ser());
+    assert(t == propose_result(s, sender, p));
+    assert forall|ab: Seq<u8>| !s.contains_key(#[trigger] bkey_raw(id, ab)) by {
+        if s.contains_key(bkey_raw(id, ab)) { assert(1 <= id <= count(s)); }
+    }
+    assert(unpath(cfg_key()) != unpath(count_key()) && unpath(cfg_key()) != unpath(pkey(id)) && unpath(cfg_key()) != unpath(bkey(id, a)));
+    assert(unpath(count_key()) != unpath(pkey(id)) && unpath(count_key()) != unpath(bkey(id, a)));
+    assert(cfg_of(t) == cfg_of(s) && count(t) == id);
+    assert(unpath(pkey(id)) != unpath(bkey(id, a)));
+    assert(prop_of(t, id) == Some(p));
+    assert forall|id2: u64| id2 != id implies prop_of(t, id2) == prop_of(s, id2) by {
+        assert(u64_unkb(u64_kb(id2)) != u64_unkb(u64_kb(id)));
+        assert(unpath(pkey(id2)) != unpath(pkey(id)) && unpath(pkey(id2)) != unpath(count_key()) && unpath(pkey(id2)) != unpath(bkey(id, a)));
+    }
+    assert forall|id2: u64, kind: Option<Vote>| true implies
+        #[trigger] cast(t, id2, kind) == cast(s, id2, kind) + (if id2 == id && (kind is None || kind == Some(Vote::Yes)) { p.votes.yes as nat } else { 0nat }) by {
+        lemma_side_write3(s, count_key(), u64_ser(id), id2, kind);
+        lemma_side_write3(t0, pkey(id), p.ser(), id2, kind);
+        assert(!t1.contains_key(bkey(id, a))) by { assert(!s.contains_key(bkey_raw(id, utf8(a)))); }
+        lemma_cast(t1, id, a, bl, id2, kind);
+    }
+    lemma_no_ballots_zero(s, id, Some(Vote::Yes)); lemma_no_ballots_zero(s, id, Some(Vote::No));
+    lemma_no_ballots_zero(s, id, Some(Vote::Abstain)); lemma_no_ballots_zero(s, id, Some(Vote::Veto));
+    assert(cast(t, id, Some(Vote::Yes)) == p.votes.yes && cast(t, id, Some(Vote::No)) == 0
+        && cast(t, id, Some(Vote::Abstain)) == 0 && cast(t, id, Some(Vote::Veto)) == 0);
+    assert(prop_inv(t, id, p));
+    assert forall|id2: u64| prop_of(t, id2) is Some implies prop_inv(t, id2, prop_of(t, id2)->Some_0) by {
+        if id2 != id {
+            assert(prop_of(t, id2) == prop_of(s, id2));
+            assert(prop_inv(s, id2, prop_of(s, id2)->Some_0));
+            assert(cast(t, id2, Some(Vote::Yes)) == cast(s, id2, Some(Vote::Yes)) && cast(t, id2, Some(Vote::No)) == cast(s, id2, Some(Vote::No))
+                && cast(t, id2, Some(Vote::Abstain)) == cast(s, id2, Some(Vote::Abstain)) && cast(t, id2, Some(Vote::Veto)) == cast(s, id2, Some(Vote::Veto)));
+        }
+    }
+    assert forall|id2: u64, ab: Seq<u8>| t.contains_key(bkey_raw(id2, ab)) implies 1 <= id2 <= count(t) by {
+        assert(unpath(bkey_raw(id2, ab)) != unpath(pkey(id)) && unpath(bkey_raw(id2, ab)) != unpath(count_key()));
+        if bkey_raw(id2, ab) == bkey(id, a) {
+            assert(unpair_kb(pair_kb(u64_kb(id2), ab)) == unpair_kb(pair_kb(u64_kb(id), utf8(a))));
+            assert(u64_unkb(u64_kb(id2)) == u64_unkb(u64_kb(id)));
+        } else {
+            assert(s.contains_key(bkey_raw(id2, ab)));
+        }
+    }
+}
+
+/// a deposit that the configuration promises to return when the proposal fails
+pub open spec fn refundable(d: Option<DepositInfo>) -> bool { d is Some && d->Some_0.refund_failed_proposals }
+
+@fn contracts/cw3-flex-multisig/src/contract.rs execute_propose
+@requires
+    inv(old(deps.storage).view()),
+    count(old(deps.storage).view()) < u64::MAX
+@ensures C05.propose_exact C06 C03 C15
+    r is Ok ==> step_propose(old(deps.storage).view(), final(deps.storage).view(), deps.querier.world(), info.sender, info.funds@, &env.block, title, description, msgs, latest)
+@ensures C05.propose_inv C03 C06 C15
+    r is Ok ==> inv(final(deps.storage).view())
+@ensures C15.propose_takes_deposit_once
+    r is Ok ==> take_msgs_ok(r->Ok_0.messages@, cfg_of(old(deps.storage).view())->Some_0.proposal_deposit, info.sender@, env.contract.address@)
+@ensures C06.total_is_snapshot_total
+    r is Ok ==> grp_total_at(deps.querier.world(), group_of(old(deps.storage).view()), Some(env.block.height))
+        == Some(prop_of(final(deps.storage).view(), (count(old(deps.storage).view()) + 1) as u64)->Some_0.total_weight)
+@ensures C06.proposer_snapshot
+    r is Ok ==> exists|st: String| #![auto] st@ == info.sender@ && grp_member_at(deps.querier.world(), group_of(old(deps.storage).view()), st, Some(env.block.height))
+        == Some(Some(prop_of(final(deps.storage).view(), (count(old(deps.storage).view()) + 1) as u64)->Some_0.votes.yes))
+@ensures C15.propose_deposit_recoverable
+    r is Ok && refundable(cfg_of(old(deps.storage).view())->Some_0.proposal_deposit)
+        ==> prop_of(final(deps.storage).view(), (count(old(deps.storage).view()) + 1) as u64)->Some_0.status != Status::Rejected
+@prefix
+    broadcast use cw3_axioms, msg_conv;
+    proof {
+        let s = old(deps.storage).view();
+        let w = deps.querier.world();
+        if cfg_of(s) is Some && grp_member_now(w, group_of(s), info.sender@) is Some && grp_total_now(w, group_of(s)) is Some
+            && clamp_expiry(latest, cfg_of(s)->Some_0.max_voting_period.after_spec(&env.block)) is Some {
+            lemma_propose_preserves(s, info.sender, new_prop(s, w, info.sender, &env.block, title, description, msgs,
+                clamp_expiry(latest, cfg_of(s)->Some_0.max_voting_period.after_spec(&env.block))->Some_0));
+        }
+    }
+@end
+
+// --------------------------------------------------------------------- execute / close / hook
+pub proof fn lemma_prop_write(s: Raw, id: u64, p2: Proposal)
+    requires inv(s), prop_of(s, id) is Some,
+        p2.votes == prop_of(s, id)->Some_0.votes, p2.threshold == prop_of(s, id)->Some_0.threshold, p2.deposit == prop_of(s, id)->Some_0.deposit,
+    ensures inv(s.insert(pkey(id), p2.ser())), prop_of(s.insert(pkey(id), p2.ser()), id) == Some(p2),
+        forall|id2: u64| id2 != id ==> prop_of(s.insert(pkey(id), p2.ser()), id2) == prop_of(s, id2),
+        cfg_of(s.insert(pkey(id), p2.ser())) == cfg_of(s),
+{
+    broadcast use cw3_axioms;
+    lemma_ns3();
+    let t = s.insert(pkey(id), p2.ser());
+    assert(unpath(cfg_key()) != unpath(pkey(id)) && unpath(count_key()) != unpath(pkey(id)));
+    assert(cfg_of(t) == cfg_of(s) && count(t) == count(s));
+    assert forall|id2: u64| id2 != id implies prop_of(t, id2) == prop_of(s, id2) by {
+        assert(u64_unkb(u64_kb(id2)) != u64_unkb(u64_kb(id)));
+        assert(unpath(pkey(id2)) != unpath(pkey(id)));
+    }
+    assert forall|id2: u64| prop_of(t, id2) is Some implies prop_inv(t, id2, prop_of(t, id2)->Some_0) by {
+        lemma_side_write3(s, pkey(id), p2.ser(), id2, Some(Vote::Yes));
+        lemma_side_write3(s, pkey(id), p2.ser(), id2, Some(Vote::No)); lemma_side_write3(s, pkey(id), p2.ser(), id2, Some(Vote::Abstain));
+        lemma_side_write3(s, pkey(id), p2.ser(), id2, Some(Vote::Veto));
+        if id2 != id { assert(prop_of(t, id2) == prop_of(s, id2)); assert(prop_inv(s, id2, prop_of(s, id2)->Some_0)); }
+        else { assert(prop_inv(s, id, prop_of(s, id)->Some_0)); }
+    }
+    assert forall|id2: u64, ab: Seq<u8>| t.contains_key(bkey_raw(id2, ab)) implies 1 <= id2 <= count(t) by {
+        assert(unpath(bkey_raw(id2, ab)) != unpath(pkey(id)));
+        assert(s.contains_key(bkey_raw(id2, ab)));
+    }
+}
+pub open spec fn step_execute(s: Raw, t: Raw, w: int, sender: Seq<char>, b: &BlockInfo, id: u64) -> bool {
+    prop_of(s, id) is Some && spec_status(prop_of(s, id)->Some_0, b) == Status::Passed
+    && cfg_of(s) is Some && authorized(cfg_of(s)->Some_0, w, sender)
+    && t == s.insert(pkey(id), (Proposal { status: Status::Executed, ..prop_of(s, id)->Some_0 }).ser())
+}
+/// C05 / C15: Execute dispatches the refund (iff a deposit was taken) followed by exactly the proposal's messages, in order
+pub open spec fn execute_msgs_ok(msgs: Seq<SubMsg<Empty>>, p: Proposal) -> bool {
+    match p.deposit {
+        Some(d) => msgs.len() == p.msgs@.len() + 1 && msgs[0] == SubMsg::<Empty>::new_spec(msgs[0].msg) && is_refund_msg(msgs[0].msg, d, p.proposer@)
+            && (forall|i: int| 0 <= i < p.msgs@.len() ==> #[trigger] msgs[i + 1] == SubMsg::<Empty>::new_spec(p.msgs@[i])),
+        None => msgs.len() == p.msgs@.len() && (forall|i: int| 0 <= i < p.msgs@.len() ==> #[trigger] msgs[i] == SubMsg::<Empty>::new_spec(p.msgs@[i])),
+    }
+}
+pub open spec fn step_close(s: Raw, t: Raw, b: &BlockInfo, id: u64) -> bool {
+    prop_of(s, id) is Some
+    && prop_of(s, id)->Some_0.status != Status::Executed && prop_of(s, id)->Some_0.status != Status::Rejected && prop_of(s, id)->Some_0.status != Status::Passed
+    && spec_status(prop_of(s, id)->Some_0, b) != Status::Passed
+    && prop_of(s, id)->Some_0.expires.expired(b)
+    && t == s.insert(pkey(id), (Proposal { status: Status::Rejected, ..prop_of(s, id)->Some_0 }).ser())
+}
+/// C15: Close returns the deposit iff refunds for failed proposals are enabled; nothing else is dispatched
+pub open spec fn close_msgs_ok(msgs: Seq<SubMsg<Empty>>, p: Proposal) -> bool {
+    if refundable(p.deposit) { msgs.len() == 1 && msgs[0] == SubMsg::<Empty>::new_spec(msgs[0].msg) && is_refund_msg(msgs[0].msg, p.deposit->Some_0, p.proposer@) }
+    else { msgs.len() == 0 }
+}
+
+@fn contracts/cw3-flex-multisig/src/contract.rs execute_execute
+@requires
+    inv(old(deps.storage).view())
+@ensures C05.execute_only_passed_and_authorised C03
+    r is Ok ==> step_execute(old(deps.storage).view(), final(deps.storage).view(), deps.querier.world(), info.sender@, &env.block, proposal_id)
+@ensures C05.execute_dispatches_exactly C15
+    r is Ok ==> execute_msgs_ok(r->Ok_0.messages@, prop_of(old(deps.storage).view(), proposal_id)->Some_0)
+@ensures C05.execute_inv C03 C06 C15
+    r is Ok ==> inv(final(deps.storage).view())
+@prefix
+    broadcast use cw3_axioms, msg_conv;
+    proof {
+        if prop_of(old(deps.storage).view(), proposal_id) is Some {
+            assert(prop_inv(old(deps.storage).view(), proposal_id, prop_of(old(deps.storage).view(), proposal_id)->Some_0));
+            lemma_prop_write(old(deps.storage).view(), proposal_id, Proposal { status: Status::Executed, ..prop_of(old(deps.storage).view(), proposal_id)->Some_0 });
+        }
+    }
+@end
+
+@fn contracts/cw3-flex-multisig/src/contract.rs execute_close
+@requires
+    inv(old(deps.storage).view())
+@ensures C05.close_only_expired_unpassed C03
+    r is Ok ==> step_close(old(deps.storage).view(), final(deps.storage).view(), &env.block, proposal_id)
+@ensures C15.close_refund_iff_enabled C05
+    r is Ok ==> close_msgs_ok(r->Ok_0.messages@, prop_of(old(deps.storage).view(), proposal_id)->Some_0)
+@ensures C05.close_inv C03 C06 C15
+    r is Ok ==> inv(final(deps.storage).view())
+@prefix
+    broadcast use cw3_axioms, msg_conv;
+    proof {
+        if prop_of(old(deps.storage).view(), proposal_id) is Some {
+            assert(prop_inv(old(deps.storage).view(), proposal_id, prop_of(old(deps.storage).view(), proposal_id)->Some_0));
+            lemma_prop_write(old(deps.storage).view(), proposal_id, Proposal { status: Status::Rejected, ..prop_of(old(deps.storage).view(), proposal_id)->Some_0 });
+        }
+    }
+@end
+
+@fn contracts/cw3-flex-multisig/src/contract.rs execute_membership_hook
+@ensures C06.hook_changes_nothing C03 C05 C15
+    final(deps.storage).view() == old(deps.storage).view()
+@ensures C05.hook_nomsg C15
+    r is Ok ==> r->Ok_0.messages@.len() == 0
+@end
+
+// --------------------------------------------------------------------- instantiate, dispatcher, queries
+// ASSUMED LEAF: validates a cw20 deposit token by querying its token info (packages/cw20/src/denom.rs); only used at instantiation
+@method packages/cw20/src/denom.rs UncheckedDenom into_checked [assume]
+@ensures C15.denom_checked
+    r is Ok ==> match self { UncheckedDenom::Native(d) => r->Ok_0 == Denom::Native(d), UncheckedDenom::Cw20(a) => r->Ok_0 is Cw20 && r->Ok_0->Cw20_0@ == a@ }
+@end
+
+@method packages/cw3/src/deposit.rs UncheckedDepositInfo into_checked [closures: 1]
+@ensures C15.deposit_checked
+    r is Ok ==> self.amount.0 != 0 && r->Ok_0.amount == self.amount && r->Ok_0.refund_failed_proposals == self.refund_failed_proposals
+@closure 1 C15.deposit_checked_err
+    (res: DepositError)
+    ensures true
+@end
+
+@fn contracts/cw3-flex-multisig/src/contract.rs instantiate
+@requires
+    old(deps.storage).view() == SMap::<Seq<u8>, Seq<u8>>::empty()
+@ensures C05.instantiate_inv C03 C06 C15
+    r is Ok ==> inv(final(deps.storage).view()) && count(final(deps.storage).view()) == 0
+@ensures C06.instantiate_threshold_valid
+    r is Ok ==> grp_total_now(deps.querier.world(), msg.group_addr@) is Some
+        && msg.threshold.valid(grp_total_now(deps.querier.world(), msg.group_addr@)->Some_0)
+        && cfg_of(final(deps.storage).view())->Some_0.threshold == msg.threshold
+        && cfg_of(final(deps.storage).view())->Some_0.group_addr.0@ == msg.group_addr@
+@closure 1 C06.instantiate_group_err
+    (res: ContractError)
+    ensures true
+@closure 2 C15.instantiate_deposit_checked
+    (res: Result<DepositInfo, DepositError>)
+    ensures res is Ok ==> deposit.amount.0 != 0 && res->Ok_0.amount == deposit.amount
+@prefix
+    broadcast use cw3_axioms;
+    proof { lemma_ns3(); }
+@insert_before "Ok(Response::default())" 1
+    proof {
+        let t = deps.storage.view();
+        assert forall|id: u64| prop_of(t, id) is None by { assert(!t.contains_key(pkey(id))) by { assert(unpath(pkey(id)).0 == "proposals"@); } }
+        assert forall|id: u64, ab: Seq<u8>| !t.contains_key(#[trigger] bkey_raw(id, ab)) by { assert(unpath(bkey_raw(id, ab)).0 == "votes"@); }
+        assert(!t.contains_key(count_key())) by { assert(unpath(count_key()).0 == "proposal_count"@); }
+    }
+@end
+
+pub open spec fn step_msg(s: Raw, t: Raw, w: int, sender: Addr, funds: Seq<Coin>, b: &BlockInfo, msg: ExecuteMsg) -> bool {
+    match msg {
+        ExecuteMsg::Propose { title, description, msgs, latest } => step_propose(s, t, w, sender, funds, b, title, description, msgs, latest),
+        ExecuteMsg::Vote { proposal_id, vote } => step_vote(s, t, w, sender@, b, proposal_id, vote),
+        ExecuteMsg::Execute { proposal_id } => step_execute(s, t, w, sender@, b, proposal_id),
+        ExecuteMsg::Close { proposal_id } => step_close(s, t, b, proposal_id),
+        ExecuteMsg::MemberChangedHook(_) => t == s,
+    }
+}
+/// messages of one successful call (C05: only Execute dispatches proposal messages; C15: deposit pulled / refunded)
+pub open spec fn dispatch_ok(s: Raw, msgs: Seq<SubMsg<Empty>>, sender: Seq<char>, contract: Seq<char>, msg: ExecuteMsg) -> bool {
+    match msg {
+        ExecuteMsg::Propose { .. } => take_msgs_ok(msgs, cfg_of(s)->Some_0.proposal_deposit, sender, contract),
+        ExecuteMsg::Vote { .. } => msgs.len() == 0,
+        ExecuteMsg::Execute { proposal_id } => execute_msgs_ok(msgs, prop_of(s, proposal_id)->Some_0),
+        ExecuteMsg::Close { proposal_id } => close_msgs_ok(msgs, prop_of(s, proposal_id)->Some_0),
+        ExecuteMsg::MemberChangedHook(_) => msgs.len() == 0,
+    }
+}
+
+@fn contracts/cw3-flex-multisig/src/contract.rs execute
+@requires
+    inv(old(deps.storage).view()),
+    count(old(deps.storage).view()) < u64::MAX
+@ensures C05.execute_step C03 C06 C15
+    r is Ok ==> step_msg(old(deps.storage).view(), final(deps.storage).view(), deps.querier.world(), info.sender, info.funds@, &env.block, msg)
+@ensures C05.execute_inv C03 C06 C15
+    r is Ok ==> inv(final(deps.storage).view())
+@ensures C05.execute_dispatch C15
+    r is Ok ==> dispatch_ok(old(deps.storage).view(), r->Ok_0.messages@, info.sender@, env.contract.address@, msg)
+@end
+
+@fn contracts/cw3-flex-multisig/src/contract.rs query_proposal
+@requires
+    inv(deps.storage.view())
+@ensures C03.query_status
+    r is Ok ==> prop_of(deps.storage.view(), id) is Some && r->Ok_0.status == spec_status(prop_of(deps.storage.view(), id)->Some_0, &env.block)
+@ensures C05.query_content C15
+    r is Ok ==> r->Ok_0.id == id && r->Ok_0.msgs == prop_of(deps.storage.view(), id)->Some_0.msgs && r->Ok_0.expires == prop_of(deps.storage.view(), id)->Some_0.expires
+        && r->Ok_0.proposer == prop_of(deps.storage.view(), id)->Some_0.proposer && r->Ok_0.deposit == prop_of(deps.storage.view(), id)->Some_0.deposit
+@prefix
+    proof { if prop_of(deps.storage.view(), id) is Some { assert(prop_inv(deps.storage.view(), id, prop_of(deps.storage.view(), id)->Some_0)); } }
+@end
+
+@fn contracts/cw3-flex-multisig/src/contract.rs query_vote [closures: 1]
+@ensures C06.query_vote
+    r is Ok ==> match ballot(deps.storage.view(), proposal_id, voter@) {
+        Some(b) => r->Ok_0.vote is Some && r->Ok_0.vote->Some_0.weight == b.weight && r->Ok_0.vote->Some_0.vote == b.vote
+            && r->Ok_0.vote->Some_0.proposal_id == proposal_id && r->Ok_0.vote->Some_0.voter@ == voter@,
+        None => r->Ok_0.vote is None,
+    }
+@closure 1 C06.query_vote_map
+    (res: VoteInfo)
+    ensures res.proposal_id == proposal_id && res.vote == b.vote && res.weight == b.weight && res.voter@ == voter@
+@prefix
+    broadcast use cw3_axioms;
+@end
+
+@fn contracts/cw3-flex-multisig/src/contract.rs query_voter
+@ensures C06.query_voter_is_group_member
+    r is Ok ==> cfg_of(deps.storage.view()) is Some && r->Ok_0.weight == grp_member_now(deps.querier.world(), group_of(deps.storage.view()), voter@)
+@end
